@@ -123,6 +123,7 @@ func main() {
 	genConfig()
 	genCache()
 	genRun()
+	genTTL()
 	if forProp == "" || forProp == "C15" {
 		genLockset()
 	}
